@@ -192,6 +192,49 @@ func (g *raw) commit(like string, tree string, parents []string) (string, error)
 	return h.String(), err
 }
 
+// commitForeign writes a commit over the given tree and parents as somebody else would have: other
+// author, committer and time than `like`, so another hash even for the same tree and parents.
+func (g *raw) commitForeign(like string, tree string, parents []string) (string, error) {
+	c, err := g.r.CommitObject(plumbing.NewHash(like))
+	if err != nil {
+		return "", err
+	}
+	who := object.Signature{Name: "Mallory", Email: "mallory@example.org", When: c.Committer.When.Add(3600 * 1e9)}
+	n := object.Commit{Author: who, Committer: who, Message: c.Message, TreeHash: plumbing.NewHash(tree)}
+	for _, p := range parents {
+		n.ParentHashes = append(n.ParentHashes, plumbing.NewHash(p))
+	}
+	o := g.r.Storer.NewEncodedObject()
+	o.SetType(plumbing.CommitObject)
+	if err := n.Encode(o); err != nil {
+		return "", err
+	}
+	h, err := g.r.Storer.SetEncodedObject(o)
+	return h.String(), err
+}
+
+// ancestors returns the commits reachable from h (h included) that this repository holds.
+func (g *raw) ancestors(h string) map[string]bool {
+	out := map[string]bool{}
+	stack := []string{h}
+	for len(stack) > 0 {
+		x := stack[len(stack)-1]
+		stack = stack[:len(stack)-1]
+		if out[x] {
+			continue
+		}
+		c, err := g.r.CommitObject(plumbing.NewHash(x))
+		if err != nil {
+			continue
+		}
+		out[x] = true
+		for _, p := range c.ParentHashes {
+			stack = append(stack, p.String())
+		}
+	}
+	return out
+}
+
 // readSeed records the commits reachable from head, parents first.
 func readSeed(repo repository.RepoData, head string, blobName string) ([]Commit, error) {
 	var order []Commit
